@@ -94,6 +94,16 @@ class H(Hooks):
             j, p = m.ops[arg % m.n_ops]
             got = w.call_query(name, w.op_of(j, p))
             ctx.check(bool(got) == (p < m.nxt[j]), "query_equals_spec", lambda: f"is_scheduled(({j},{p})) = {got}, spec {p < m.nxt[j]}", query=name)
+        elif name == "is_ongoing":
+            # the predicate form of ongoing_operations(): ongoing and completed partition the scheduled operations
+            if m.hist and m.now() is not UNDEFINED:
+                hh = m.hist[arg % len(m.hist)]
+                so = next(s for s in d.schedule.schedule[hh[2]] if w.jp(s.operation) == (hh[0], hh[1]))
+                got = w.call_query(name, so)
+                exp = hh[4] > m.now()
+                ctx.check(bool(got) == exp, "query_equals_spec", lambda: f"is_ongoing(op ({hh[0]},{hh[1]}) scheduled {hh[3]}-{hh[4]}) = {got} at current time {m.now()}; "
+                          f"ongoing_operations() spec: {'ongoing' if exp else 'completed'} (earlier in this state: {before})", query=name)
+                ctx.probe("is_ongoing_on_completed_operation") if not exp else None
         elif name == "uns_observer" and self.uns is not None:
             got = sorted(w.jp(o) for o in self.uns.unscheduled_operations)
             exp = sorted(m.unscheduled())
